@@ -205,6 +205,41 @@ pub fn ffi_line(rng: &mut Rng, maxvars: usize, maxops: usize) -> String {
         let mut buf = vec![0.0f64; MAX_COEFFS];
         let got = polynomial_get_coeffs(pp, buf.as_mut_ptr(), MAX_COEFFS);
         let cp = poly_str(plen, &buf[..got]);
+        // second round on the SAME weight tables, updated in place (profile rotated by one
+        // variable): counts must follow the update ("any call sequence")
+        let rot = |v: usize| (v + 1) % total_vars.max(1);
+        for v in 0..total_vars {
+            let r = rot(v);
+            wmc_param_f64_set_weight(wf, v as u64, wr[r].0 as f64 / 8.0, wr[r].1 as f64 / 8.0);
+            let (a, bb, c, d) = wc[r];
+            wmc_param_complex_set_weight(
+                wcx,
+                v as u64,
+                Complex { re: a as f64 / 2.0, im: bb as f64 / 2.0 },
+                Complex { re: c as f64 / 2.0, im: d as f64 / 2.0 },
+            );
+            wmc_param_poly_set_weight(wpo, v as u64, wp[r].0.as_ptr(), wp[r].0.len(), wp[r].1.as_ptr(), wp[r].1.len());
+        }
+        let cr2 = f64_exact(bdd_wmc(last, wf));
+        let cc2 = bdd_wmc_complex(last, wcx);
+        let pp2 = bdd_wmc_poly(last, wpo);
+        let plen2 = polynomial_len(pp2);
+        let mut buf2 = vec![0.0f64; MAX_COEFFS];
+        let got2 = polynomial_get_coeffs(pp2, buf2.as_mut_ptr(), MAX_COEFFS);
+        let cp2 = poly_str(plen2, &buf2[..got2]);
+        // and back to the first profile for the read-back tests below
+        for v in 0..total_vars {
+            wmc_param_f64_set_weight(wf, v as u64, wr[v].0 as f64 / 8.0, wr[v].1 as f64 / 8.0);
+            let (a, bb, c, d) = wc[v];
+            wmc_param_complex_set_weight(
+                wcx,
+                v as u64,
+                Complex { re: a as f64 / 2.0, im: bb as f64 / 2.0 },
+                Complex { re: c as f64 / 2.0, im: d as f64 / 2.0 },
+            );
+            wmc_param_poly_set_weight(wpo, v as u64, wp[v].0.as_ptr(), wp[v].0.len(), wp[v].1.as_ptr(), wp[v].1.len());
+        }
+        let cr3 = f64_exact(bdd_wmc(last, wf));
         let js = CStr::from_ptr(bdd_to_json(last)).to_string_lossy().to_string();
         // marshalling of a long coefficient array (truncation at MAX_COEFFS)
         let long: Vec<f64> = (0..MAX_COEFFS + 5).map(|i| (i % 3) as f64).collect();
@@ -307,16 +342,36 @@ pub fn ffi_line(rng: &mut Rng, maxvars: usize, maxops: usize) -> String {
             let f = |p: &Polynomial<RealSemiring>| poly_str(p.len, &p.coefficients[..p.len].iter().map(|c| c.0).collect::<Vec<_>>());
             format!("{}~{}", f(l), f(h))
         };
+        // native counts under the rotated profile
+        let (nr2, nc2, np2) = {
+            let rot = |v: usize| (v + 1) % total_vars.max(1);
+            let mut rm2 = HashMap::new();
+            let mut cm2 = HashMap::new();
+            let mut pm2 = HashMap::new();
+            for v in 0..total_vars {
+                let l = VarLabel::new_usize(v);
+                let r = VarLabel::new_usize(rot(v));
+                rm2.insert(l, *rm.get(&r).unwrap());
+                cm2.insert(l, *cm.get(&r).unwrap());
+                pm2.insert(l, *pm.get(&r).unwrap());
+            }
+            let a = f64_exact(nlast.unsmoothed_wmc(&WmcParams::new(rm2)).0);
+            let b2 = nlast.unsmoothed_wmc(&WmcParams::new(cm2));
+            let c2 = nlast.unsmoothed_wmc(&WmcParams::new(pm2));
+            let cs: Vec<f64> = c2.coefficients[..c2.len].iter().map(|c| c.0).collect();
+            (a, format!("{},{}", f64_exact(b2.re), f64_exact(b2.im)), poly_str(c2.len, &cs))
+        };
         let nr = f64_exact(nlast.unsmoothed_wmc(&WmcParams::new(rm)).0);
         let ncx = nlast.unsmoothed_wmc(&WmcParams::new(cm));
         let npoly = nlast.unsmoothed_wmc(&WmcParams::new(pm));
         let npc: Vec<f64> = npoly.coefficients[..npoly.len].iter().map(|c| c.0).collect();
         format!(
-            "mcnow={} cw={} ceq={} cmc={} cnodes={} cconst={} wback={} cr={} cc={},{} cp={} lplen={} json={} nw={} neq={} nmc={} nr={} nc={},{} np={} nvars={} xs={} nxs={} crc={} nrc={} cwb={} nwb={} cpb={} npb={}",
+            "mcnow={} cw={} ceq={} cmc={} cnodes={} cconst={} wback={} cr={} cc={},{} cp={} lplen={} json={} nw={} neq={} nmc={} nr={} nc={},{} np={} nvars={} xs={} nxs={} crc={} nrc={} cwb={} nwb={} cpb={} npb={} cr2={} cc2={},{} cp2={} cr3={} nr2={} nc2={} np2={}",
             csv(&mc_now), cw.join("|"), csv(&ceq), csv(&cmc), csv(&cnodes), cconst, wback, cr,
             f64_exact(cc.re), f64_exact(cc.im), cp, lplen, js.replace(' ', ""),
             nw.join("|"), csv(&neq), csv(&nmc), nr, f64_exact(ncx.re), f64_exact(ncx.im),
-            poly_str(npoly.len, &npc), nv, xs, nxs, crc, nrc, cwb, nwb, cpb, npb
+            poly_str(npoly.len, &npc), nv, xs, nxs, crc, nrc, cwb, nwb, cpb, npb,
+            cr2, f64_exact(cc2.re), f64_exact(cc2.im), cp2, cr3, nr2, nc2, np2
         )
     });
     format!("{} => {}", head, r.unwrap_or_else(|e| e))
